@@ -18,7 +18,8 @@ EXPLANATION = (
     "obligations on every normal exit; the 21x13 validation matrix (which class establishes which kind of check, locally, by delegation "
     "or through the sub-model built in solve) is re-derived and compared with the frozen cells; the wrappers forward every same-named "
     "constructor argument to the k-model they build; (R2) every raise in constructors and validation helpers is ValueError (or a bare "
-    "re-raise inside `except ValueError`) and no handler between a validation site and the API boundary swallows it; (R3, advisory) "
+    "re-raise inside `except ValueError`) and no handler between a validation site and the API boundary swallows it; (R4) the boolean validator behind every conservation "
+    "site examines every node having both incoming and outgoing edges (no other exemption), compares the complete in-sum with the complete out-sum and answers True only after the last node; (R3, advisory) "
     "reads of loop variables after a possibly empty loop are listed as notes.  NOT decided: the converse (every well-formed input is accepted)."
 )
 DECIDED = ["each documented domain violation has a ValueError rejection on every completing path", "delegated checks are always invoked",
@@ -269,6 +270,86 @@ def unbound_after_loop_notes(prog: Program, rep):
              "established by R1, so these reads are not reachable with an unbound variable)")
 
 
+def conservation_validator(prog: Program, rep, RID: str):
+    """The boolean validator behind every 'non-conserving flow -> ValueError' site: it must examine every node that has both an
+    incoming and an outgoing edge, add up *all* incoming and *all* outgoing values, and answer False on any difference."""
+    f = prog.function("flowpaths.utils.graphutils", "check_flow_conservation")
+    G = f.node.args.args[0].arg
+    A = f.node.args.args[1].arg
+    key = "check_flow_conservation"
+    outer = [s for s in f.node.body if isinstance(s, ast.For)]
+    if len(outer) != 1 or norm(outer[0].iter) not in (f"{G}.nodes()", f"{G}.nodes", G) or not isinstance(outer[0].target, ast.Name):
+        raise AnalysisError("check_flow_conservation: loop over all nodes of the graph not found")
+    lp = outer[0]
+    V = lp.target.id
+    # 1. exemptions
+    allowed = {f"{G}.out_degree({V}) == 0", f"{G}.in_degree({V}) == 0"}
+    skips = [s for s in lp.body if isinstance(s, ast.If) and any(isinstance(b, ast.Continue) for b in s.body)]
+    bad_skip = []
+    seen = set()
+    for s in skips:
+        parts = s.test.values if isinstance(s.test, ast.BoolOp) and isinstance(s.test.op, ast.Or) else [s.test]
+        for p in parts:
+            (seen.add(norm(p)) if norm(p) in allowed else bad_skip.append(p))
+        if isinstance(s.test, ast.BoolOp) and isinstance(s.test.op, ast.And):
+            bad_skip = [x for x in bad_skip if x is not s.test]
+    if any(isinstance(n, (ast.Continue, ast.Break)) for s in lp.body if s not in skips for n in ast.walk(s)):
+        bad_skip.append(lp)
+    if bad_skip:
+        rep.violation(RID, key + ":exempt", f"a node is exempted from the conservation test under `{norm(bad_skip[0])[:80]}`: only nodes without incoming or without "
+                      "outgoing edges (sources / sinks) may be skipped", f.loc(bad_skip[0]))
+    else:
+        rep.ok(RID, key + ":exempt", f"only sources and sinks are exempt ({sorted(seen)})", f.loc(lp))
+    # 2. the two sums
+    sums = {}
+    for inner in [s for s in lp.body if isinstance(s, ast.For)]:
+        it = inner.iter
+        if not (isinstance(it, ast.Call) and dotted(it.func) in (f"{G}.out_edges", f"{G}.in_edges") and it.args and norm(it.args[0]) == V):
+            raise AnalysisError(f"check_flow_conservation: inner loop `{norm(it)}` not recognised")
+        direction = dotted(it.func).rsplit(".", 1)[1]
+        accs = [s for s in ast.walk(inner) if isinstance(s, ast.AugAssign) and isinstance(s.op, ast.Add) and isinstance(s.target, ast.Name)]
+        if len(accs) != 1:
+            raise AnalysisError(f"check_flow_conservation: accumulation in the loop over {direction} not recognised")
+        cond = enclosing_tests_in(inner, accs[0])
+        if cond or any(isinstance(n, (ast.Continue, ast.Break)) for n in ast.walk(inner)):
+            rep.violation(RID, key + f":{direction}-sum", f"the sum over {direction} is conditional or leaves the loop early: some edge values are not counted", f.loc(inner))
+            continue
+        if not re.search(r"\[%s\]$|\.get\(%s(, 0)?\)$" % (re.escape(A), re.escape(A)), norm(accs[0].value)):
+            raise AnalysisError(f"check_flow_conservation: summand `{norm(accs[0].value)}` is not the flow attribute of the edge")
+        sums.setdefault(direction, []).append(accs[0].target.id)
+    if sorted(sums) == ["in_edges", "out_edges"] and all(len(v) == 1 for v in sums.values()) and sums["in_edges"] != sums["out_edges"]:
+        rep.ok(RID, key + ":sums", "one sum over all in-edges, one over all out-edges of the node", f.loc(lp), sample={k: v[0] for k, v in sums.items()})
+    elif sums:
+        rep.violation(RID, key + ":sums", f"the two sides of the conservation test are not (all in-edges) vs (all out-edges): {sums}", f.loc(lp))
+        return
+    else:
+        raise AnalysisError("check_flow_conservation: in/out sums not found")
+    a, b = sums["in_edges"][0], sums["out_edges"][0]
+    # 3. decisive comparison
+    dec = [s for s in lp.body if isinstance(s, ast.If) and isinstance(s.test, ast.Compare) and len(s.test.ops) == 1 and
+           {norm(s.test.left), norm(s.test.comparators[0])} == {a, b}]
+    if len(dec) != 1:
+        raise AnalysisError("check_flow_conservation: comparison of the two sums not recognised (a tolerance would change which inputs are rejected - review)")
+    d = dec[0]
+    rets = [r for r in d.body if isinstance(r, ast.Return)]
+    if isinstance(d.test.ops[0], ast.NotEq) and rets and isinstance(rets[0].value, ast.Constant) and rets[0].value.value is False:
+        rep.ok(RID, key + ":decision", f"`{norm(d.test)}` -> return False", f.loc(d))
+    else:
+        rep.violation(RID, key + ":decision", f"`if {norm(d.test)}: {norm(d.body[0])[:40]}` does not answer False on every difference of inflow and outflow", f.loc(d))
+    # 4. True only after the whole loop
+    trues = [r for r in ast.walk(f.node) if isinstance(r, ast.Return) and isinstance(r.value, ast.Constant) and r.value.value is True]
+    last = f.node.body[-1]
+    if len(trues) == 1 and trues[0] is last:
+        rep.ok(RID, key + ":accept", "True is returned only after every node was examined", f.loc(last))
+    else:
+        rep.violation(RID, key + ":accept", "True can be returned before every node was examined", f.loc(trues[0] if trues else f.node))
+
+
+def enclosing_tests_in(root, node):
+    from rules.semantic import enclosing_tests
+    return enclosing_tests(root, node)
+
+
 def check(prog: Program, rep):
     rep.rule("C19.R1", "validation sites: presence, context and dominance (dataflow)", floor=120)
     val.check_sites(prog, rep, "C19.R1", skip_funcs=lambda k: k.endswith(":read_graph"))
@@ -280,4 +361,6 @@ def check(prog: Program, rep):
     forwarding_rule(prog, rep, "C19.R1f")
     rep.rule("C19.R2", "exception type of validation raises; no swallowing handler", floor=100)
     exception_type_rule(prog, rep, "C19.R2")
+    rep.rule("C19.R4", "the flow-conservation validator examines every inner node with complete in/out sums", floor=4)
+    conservation_validator(prog, rep, "C19.R4")
     unbound_after_loop_notes(prog, rep)
